@@ -31,6 +31,8 @@ func c18Args() []c18Arg {
 		{ast.Arr(), "arr", "[]"}, {ast.Arr(ast.Num("1"), ast.Str("a")), "arr", `[1, "a"]`},
 		{ast.Obj(), "obj", "{}"}, {ast.Obj(ast.KV("k", ast.Num("1"))), "obj", `{"k": 1}`},
 		{ast.Obj(ast.KV("b", ast.Num("1")), ast.KV("a", ast.Arr(ast.Num("2")))), "obj", `{"a": [2], "b": 1}`},
+		// a regex is neither a string nor a number: %s and %f refuse it
+		{ast.Regex("xy"), "regex", ""}, {ast.Regex("^a|b$"), "regex", ""},
 	}
 }
 
